@@ -9,8 +9,8 @@
    when a matching notice occurs.
    Proved below for every history (any number of additions by anybody, any clock readings including equal and
    decreasing ones, any repeat-after values, any filter, polls anywhere) whose additions use the server clock.
-   PARTIAL in one respect, named in C08_waiter_enabled_partial: the wake-up itself is sync.Cond (Go runtime), only
-   its state-predicate form is proved. Expiry (7 days, real wall clock) is not modelled. *)
+   The waiter clause is proved in its logical form over all histories (C08_waiters_never_miss, C08_waiter_enabled);
+   that sync.Cond.Broadcast wakes the goroutines is Go runtime behaviour: modelled, not verified. Expiry (7 days, real wall clock) is not modelled. *)
 From Coq Require Import List NArith ZArith Bool String Sorting.Sorted.
 Import ListNotations.
 Require Import V.lib.Bytes V.models.Notices V.proofs.NoticesProofs.
@@ -108,17 +108,48 @@ Theorem C08_api_no_uid_forbidden : forall q, q_uid q = None -> api_filter q = Ap
 Proof. exact api_no_uid_forbidden. Qed.
 Print Assumptions C08_api_no_uid_forbidden.
 
-(* waiter wake-up — PARTIAL. Full statement: a client blocked in WaitNotices is woken when a matching notice occurs.
-   Proved: the state-predicate form. (1) after a new-or-repeated addition (exactly the case in which AddNotice calls
-   noticeCond.Broadcast) whose notice matches the waiter's filter, WaitNotices' return condition holds;
-   (2) an addition that is not new-or-repeated (no Broadcast) never turns a blocked waiter's condition true, so no
-   wake-up is missed. Missing: that sync.Cond.Broadcast actually wakes the goroutine (Go runtime, not modelled). *)
-Theorem C08_waiter_enabled_partial : forall st a st' id f n',
+(* ---- waiting clients (State.WaitNotices). Histories (`list wevent`): additions with arbitrary clock readings,
+   WaitNotices calls with arbitrary filters, contexts timing out / being cancelled, snapd restarts, in any order.
+   The logical half of `a waiting client is woken when a matching notice occurs` is proved in full over all of them.
+   Modelled, not verified (Go runtime): that noticeCond.Broadcast() really makes every blocked call re-evaluate its
+   condition — that is what `recheck` in the model stands for. *)
+
+(* in every reachable state no call is blocked while a notice matching its filter exists ... *)
+Theorem C08_waiters_never_miss : forall (evs : list wevent) o s,
+  forallb wev_server_clock evs = true -> wrun empty_wsys evs = (o, s) ->
+  forall id f, In (id, f) (w_blocked s) -> wait_enabled (w_state s) f = false.
+Proof. exact (waiters_never_miss (eq_refl : persist_ok = true)). Qed.
+Print Assumptions C08_waiters_never_miss.
+
+(* ... whenever an addition makes a notice match the filter of a blocked call (last-repeated after its After time,
+   right user / type / key), the call returns during that addition with what Notices(filter) gives then ... *)
+Theorem C08_waiter_enabled : forall (evs : list wevent) o s a o1 s1 id f,
+  forallb wev_server_clock evs = true -> wrun empty_wsys evs = (o, s) -> a_time a = None ->
+  wstep s (WAdd a) = (o1, s1) -> In (id, f) (w_blocked s) -> wait_enabled (w_state s1) f = true ->
+  In (WReturned id f (notices (w_state s1) f)) o1 /\ ~ In (id, f) (w_blocked s1).
+Proof. exact (waiter_returns_on_match (eq_refl : persist_ok = true)). Qed.
+Print Assumptions C08_waiter_enabled.
+
+(* ... what a call returns is never empty and consists of notices matching its filter; a call with a matching notice
+   already there does not block *)
+Theorem C08_wait_returns_sound : forall evs s o s' id f l,
+  wrun s evs = (o, s') -> In (WReturned id f l) o -> l <> [] /\ forall n, In n l -> matches f n = true.
+Proof. exact wait_returns_sound. Qed.
+Print Assumptions C08_wait_returns_sound.
+
+Theorem C08_wait_returns_at_once : forall s id f,
+  wait_enabled (w_state s) f = true -> wstep s (WWait id f) = ([WReturned id f (notices (w_state s) f)], s).
+Proof. exact wait_returns_at_once. Qed.
+Print Assumptions C08_wait_returns_at_once.
+
+(* the two single-step facts behind it: a new-or-repeated addition (exactly when AddNotice calls Broadcast) whose notice
+   matches makes the condition true; an addition that is not new-or-repeated (no Broadcast) never does *)
+Theorem C08_waiter_enabled_step : forall st a st' id f n',
   good st -> a_time a = None -> add_notice st a = Some (st', true, id) ->
   find (same_key (a_user a) (a_type a) (a_key a)) (s_notices st') = Some n' -> matches f n' = true ->
   wait_enabled st' f = true.
 Proof. exact waiter_enabled. Qed.
-Print Assumptions C08_waiter_enabled_partial.
+Print Assumptions C08_waiter_enabled_step.
 
 Theorem C08_no_missed_wakeup : forall st a st' id f,
   good st -> a_time a = None -> add_notice st a = Some (st', false, id) ->
@@ -178,3 +209,18 @@ Proof. vm_compute. reflexivity. Qed.
 Example C08_api_nonroot_forbidden_example :
   api_filter (mkQ (Some 1000%N) [bs "1000"] [] [] [] None) = ApiForbidden.
 Proof. vm_compute. reflexivity. Qed.
+Example C08_waiter_history :
+  (* a call blocks (nothing matches), an unrelated notice does not wake it, a suppressed repeat does not, a matching
+     notice makes it return; a second call blocks and times out; a restart drops blocked calls *)
+  let f := mkF (Some 1000%N) [ty 1] [] (Some 10) in
+  let evs := [WAdd (mkA 10 (Some 1000%N) (ty 1) (ky 0) 0 None);            (* stamped 10: not after 10 *)
+              WWait 1%N f;
+              WAdd (mkA 10 (Some 1001%N) (ty 1) (ky 0) 0 None);            (* other user *)
+              WAdd (mkA 10 (Some 1000%N) (ty 1) (ky 0) 100 None);          (* repeat suppressed *)
+              WAdd (mkA 5 (Some 1000%N) (ty 1) (ky 0) 0 None);             (* repeated, stamped 13 *)
+              WWait 2%N (mkF None [ty 0] [] None); WTimeout 2%N;
+              WWait 3%N (mkF None [ty 0] [] None); WRestart] in
+  map (fun x => match x with WReturned id _ l => (id, map n_lr l) | WCancelled id => (id, []) end) (fst (wrun empty_wsys evs))
+    = [(1%N, [13]); (2%N, [])] /\
+  w_blocked (snd (wrun empty_wsys evs)) = [].
+Proof. vm_compute. auto. Qed.
